@@ -6,6 +6,7 @@
 #include <memory>
 
 #include "zoo/zoo.hpp"
+#include "envctl.hpp"
 
 namespace {
    vf::Report rep;
@@ -15,6 +16,8 @@ namespace {
    void table(int rot)
    {
       using namespace zoo;
+      vf::env::set_alloc(vf::env::Alloc(rot % 4));
+      struct Reset { ~Reset() { vf::env::set_alloc(vf::env::Alloc::Malloc); vf::env::arena_reset(); } } reset;
       ipr::impl::Lexicon lex;
       ipr::impl::Translation_unit unit{ lex };
       Ctx c{ lex, unit };
@@ -210,6 +213,7 @@ int main(int argc, char** argv)
 {
    opt = vf::parse_options(argc, argv);
    vf::install_crash_handler(opt, "C09");
+   (void) zoo::rows();            // built once, with the default allocator, before any address personality is selected
    verbose = not opt.replay.empty();
    if (verbose) {
       auto text = vf::slurp(opt.replay);
